@@ -1366,3 +1366,103 @@ def gen_safety_msgs():
     out += "def messageTables : List (String × Nat × Nat × List (List Nat)) := [%s]\n\n" % ", ".join('("%s", %sDim, %sSize, %s)' % (t[0], t[0], t[0], t[0]) for t in tabs)
     out += "end XV.Gen.SafetyMsgs\n"
     return out
+
+
+# ---- C04 (builder) ----
+# ---- C04 (builder) ----
+# ------------------------------------------------------------------ reader constants (C01, C04)
+def _const_product(expr, where):
+    """Evaluate `16 * 1024`-style products of integer literals (nothing else is accepted)."""
+    val = 1
+    for tok in expr.split("*"):
+        val *= c_int(tok)
+    if val <= 0:
+        raise TranslateError("non-positive constant in %s: %r" % (where, expr))
+    return val
+
+def _xmlch_const(text, name, rel):
+    m = re.search(r"const\s+XMLCh\s+%s\s*=\s*(?:XMLCh\s*\(\s*)?(0[xX][0-9A-Fa-f]+|\d+)" % re.escape(name), text)
+    if not m:
+        raise TranslateError("XMLCh constant %s not found in %s" % (name, rel))
+    return c_int(m.group(1))
+
+def _byte_array(text, name, rel):
+    """`fgX[] = { 0x3C, (char)0xEF, ... };` -> ints (casts dropped)."""
+    t = strip_c_comments(text)
+    m = re.search(r"\b%s\s*\[\s*\]\s*=\s*\{([^}]*)\}" % re.escape(name), t)
+    if not m:
+        raise TranslateError("array %s not found in %s" % (name, rel))
+    vals = []
+    for tok in m.group(1).split(","):
+        tok = re.sub(r"\(\s*(?:char|XMLByte)\s*\)", "", tok).strip()
+        if tok:
+            vals.append(c_int(tok))
+    return vals
+
+def _size_const(text, name, rel):
+    m = re.search(r"\b%s\s*=\s*(\d+)\s*;" % re.escape(name), strip_c_comments(text))
+    if not m:
+        raise TranslateError("constant %s not found in %s" % (name, rel))
+    return int(m.group(1))
+
+@translate.register("ReaderConsts")
+def gen_reader_consts():
+    rel = "internal/XMLReader.hpp"
+    t = strip_c_comments(src(rel))
+    vals = {}
+    for nm in ("kCharBufSize", "kRawBufSize"):
+        m = re.search(r"\b%s\s*=\s*([0-9xXa-fA-F\s\*]+?)\s*[,}]" % nm, t)
+        if not m:
+            raise TranslateError("%s not found in %s" % (nm, rel))
+        vals[nm] = _const_product(m.group(1), nm)
+    # buffers really have these sizes
+    for arr, sz in (("fCharBuf", "kCharBufSize"), ("fCharSizeBuf", "kCharBufSize"), ("fRawByteBuf", "kRawBufSize")):
+        if not re.search(r"\b%s\s*\[\s*%s\s*\]" % (arr, sz), t):
+            raise TranslateError("%s is no longer declared with size %s in %s" % (arr, sz, rel))
+    # default low-water mark: XMLReader/ReaderMgr default arguments and the scanners' member initialiser
+    lws = set(int(x) for x in re.findall(r"lowWaterMark\s*=\s*(\d+)", t))
+    rm = strip_c_comments(src("internal/ReaderMgr.hpp"))
+    lws |= set(int(x) for x in re.findall(r"lowWaterMark\s*=\s*(\d+)", rm))
+    sc = strip_c_comments(src("internal/XMLScanner.cpp"))
+    sc_l = set(int(x) for x in re.findall(r"fLowWaterMark\s*\(\s*(\d+)\s*\)", sc))
+    if not sc_l:
+        raise TranslateError("fLowWaterMark initialiser not found in internal/XMLScanner.cpp")
+    lws |= sc_l
+    if len(lws) != 1:
+        raise TranslateError("low-water mark defaults disagree: %s" % sorted(lws))
+    vals["lowWaterMark"] = lws.pop()
+    # the refill test of xcodeMoreChars and the request of refreshRawBuffer have the modelled shape
+    rc = strip_c_comments(src("internal/XMLReader.cpp"))
+    if not re.search(r"needMode\s*\|\|\s*bytesLeft\s*==\s*0\s*\|\|\s*bytesLeft\s*<\s*fLowWaterMark", rc):
+        raise TranslateError("xcodeMoreChars refill test changed shape in internal/XMLReader.cpp")
+    if not re.search(r"&fRawByteBuf\[bytesLeft\]\s*,\s*kRawBufSize\s*-\s*bytesLeft", rc):
+        raise TranslateError("refreshRawBuffer read request changed shape in internal/XMLReader.cpp")
+    if not re.search(r"kCharBufSize\s*-\s*spareChars", rc):
+        raise TranslateError("refreshCharBuffer room computation changed shape in internal/XMLReader.cpp")
+    ud_rel = "util/XMLUniDefs.hpp"
+    ud = strip_c_comments(src(ud_rel))
+    chars = {nm: _xmlch_const(ud, nm, ud_rel) for nm in
+             ("chLF", "chCR", "chNEL", "chLineSeparator", "chCloseAngle", "chSpace", "chHTab",
+              "chUnicodeMarker", "chSwappedUnicodeMarker")}
+    # the EOL pre-test mask of getNextChar: ~(chCR|chLF|chNEL|chLineSeparator) on 16 bits
+    if not re.search(r"chGotten\s*&\s*\(XMLCh\)\s*~\(chCR\|chLF\|chNEL\|chLineSeparator\)", t):
+        raise TranslateError("getNextChar EOL pre-test changed shape in %s" % rel)
+    rg_rel = "framework/XMLRecognizer.cpp"
+    rg = src(rg_rel)
+    out = HEADER + "namespace XV.Gen.ReaderConsts\n\n"
+    for k in ("kCharBufSize", "kRawBufSize", "lowWaterMark"):
+        out += "def %s : Nat := %d\n" % (k, vals[k])
+    out += "\n"
+    for k, v in chars.items():
+        out += "def %s : Nat := %d\n" % (k, v)
+    out += "def eolMask : Nat := %d\n\n" % (0xFFFF & ~(chars["chCR"] | chars["chLF"] | chars["chNEL"] | chars["chLineSeparator"]))
+    for nm, ln in (("fgASCIIPre", "fgASCIIPreLen"), ("fgUTF16BPre", "fgUTF16PreLen"), ("fgUTF16LPre", "fgUTF16PreLen"),
+                   ("fgUTF8BOM", "fgUTF8BOMLen"), ("fgEBCDICPre", "fgEBCDICPreLen"),
+                   ("fgUCS4BPre", "fgUCS4PreLen"), ("fgUCS4LPre", "fgUCS4PreLen")):
+        arr = _byte_array(rg, nm, rg_rel)
+        n = _size_const(rg, ln, rg_rel)
+        if len(arr) != n:
+            raise TranslateError("%s has %d entries but %s = %d" % (nm, len(arr), ln, n))
+        out += lean_list(nm, [a & 0xFF for a in arr]) + "\n"
+    out += "end XV.Gen.ReaderConsts\n"
+    return out
